@@ -6,7 +6,21 @@
 (*           positions over Instr x PnLs x Costs (prefixes = shorter ones)  *)
 (*       G16R simulation - AddClosed / AddBalance / Generate drawn with     *)
 (*           RandomElement (one successor per step)                         *)
-(*       exp = the summary Generate returns after the event                 *)
+(*       exp = the summary Generate returns after the event; with the ratio *)
+(*           figures (rate of return, Sharpe, Sortino, Calmar) of every     *)
+(*           instrument for ONE risk-free return rf and interval iv per     *)
+(*           event, and their rescaling to a second interval iw.  Exit      *)
+(*           times, rf, iv, iw: G16 takes them from fixed sequences by a    *)
+(*           hash of the history (the number of behaviours stays that of    *)
+(*           the histories; ratio figures while ONE instrument has closed   *)
+(*           positions), G16R draws them.  A figure is the tuple        *)
+(*           <<k, sign, sq.n, sq.d, fac.n, fac.d, case, fac'.n, fac'.d>>    *)
+(*           (Stats.tla, "ratio figures": value = sign*sqrt(sq*fac), never  *)
+(*           multiplied out here; fac' = after rescaling to iw), the rate   *)
+(*           of return <<v.n, v.d, fac.n, fac.d, fac'.n, fac'.d>>.          *)
+(*           G16R behaviours are either WIDE (large PnLs and costs, as      *)
+(*           before, without ratio figures: their squares exceed TLC's      *)
+(*           integers) or over the ratio domain RatioPnLs x RatioCosts.     *)
 (*  C17: G17 exhaustive - every sequence of exactly MaxVals values          *)
 (*       G17R simulation                                                    *)
 (*       exp = DataSet(history so far)                                      *)
@@ -20,32 +34,77 @@ SheetJ(s) == [pnl |-> RJ(s.pnl), win_rate |-> OptRJ(s.win_rate), profit_factor |
 AssetJ(s) == IF s.has THEN [total |-> s.total] ELSE "none"
 SummaryJ(S) == [instruments |-> [i \in Instr |-> SheetJ(S.instruments[i])],
                 assets      |-> [a \in Asset |-> AssetJ(S.assets[a])]]
+\* the ratio figures of a history for (rf, iv), rescaled to iw
+FigJ(f, g, tag) == <<f.k, f.sign, f.sq[1], f.sq[2], f.fac[1], f.fac[2], tag, g.fac[1], g.fac[2]>>
+RatioJ(h, rf, iv, iw) ==
+  LET b == Base(h)  s == SheetOfBase(b, rf, iv)  c == CaseOfBase(b, rf)
+      re(f) == ScaleFig(f, IvLen[iv], IvLen[iw])
+      ro == ScaleRor(s.pnl_return, IvLen[iv], IvLen[iw])
+  IN [pnl_return    |-> <<s.pnl_return.v[1], s.pnl_return.v[2], s.pnl_return.fac[1], s.pnl_return.fac[2], ro.fac[1], ro.fac[2]>>,
+      sharpe_ratio  |-> FigJ(s.sharpe_ratio, re(s.sharpe_ratio), c.sharpe_ratio),
+      sortino_ratio |-> FigJ(s.sortino_ratio, re(s.sortino_ratio), c.sortino_ratio),
+      calmar_ratio  |-> FigJ(s.calmar_ratio, re(s.calmar_ratio), c.calmar_ratio),
+      scale         |-> ScaleCaseOfBase(b, iv)]
+RatiosJ(cl, rf, iv, iw) ==
+  [rf |-> RJ(rf), iv |-> iv, ivlen |-> IvLen[iv], iw |-> iw, iwlen |-> IvLen[iw],
+   instruments |-> [i \in Instr |-> RatioJ(cl[i], rf, iv, iw)], empty |-> RatioJ(<<>>, rf, iv, iw)]
 DataSetJ(d) == [count |-> d.count, sum |-> d.sum, mean |-> RJ(d.mean), var |-> RJ(d.var),
                 range |-> IF d.range.has THEN [lo |-> d.range.lo, hi |-> d.range.hi] ELSE "none"]
 
+\* the ratio domain of G16R: returns are multiples of 1/20 up to 1 in magnitude (squares of sums over a
+\* history of 14 stay far below 2^31), finite decimals
+RatioPnLs  == {-4, -3, -2, -1, 0, 1, 2, 3, 4}
+RatioCosts == {4, 5, 10, 20}
+RatioInstr == {"i1", "i2"}         \* (the instruments G16 does not use; the other two stay empty: their sheets are compared too)
+GapsGen    == {0, 1, 7200, 100000, 40000000}
+RFsGen     == {Zero, <<1, 10>>, <<-1, 10>>, <<1, 20>>}
+
 GInit == Init /\ hist = <<>> /\ done = FALSE
 
-Rec16 == [a |-> last'.a, k |-> last'.k, x |-> last'.x, y |-> last'.y,
-          exp |-> SummaryJ(SummaryOf(closed', bal'))]
+\* t: the exit time of the position just closed; wide: no ratio figures (see the header)
+Rec16(wide, rf, iv, iw) ==
+  [a |-> last'.a, k |-> last'.k, x |-> last'.x, y |-> last'.y,
+   t |-> IF last'.a = "AddClosed" THEN LastT(closed'[last'.k]) ELSE 0, wide |-> wide,
+   exp |-> SummaryJ(SummaryOf(closed', bal')),
+   ratios |-> IF wide THEN "none" ELSE RatiosJ(closed', rf, iv, iw)]
+\* the choices of G16: sequences indexed by a hash of the history
+RFSeq  == <<Zero, <<1, 10>>, <<-1, 10>>, <<1, 20>>>>
+IvSeq  == <<"Daily", "Annual252", "Annual365", "Hours2", "Days500">>
+GapSeq == <<0, 1, 7200, 100000, 40000000>>
+\* G16 gives the ratio figures while all closed positions belong to one instrument (the figures of an
+\* instrument are functions of ITS history: every history of one instrument up to the bound is met
+\* this way; interleavings of several instruments with ratio figures come from G16R)
+OneInstr(cl) == Cardinality({i \in Instr : cl[i] # <<>>}) <= 1
+HashOf(cl) == ISumOver([i \in Instr |-> 3 * Len(cl[i]) +
+                ISumOver([k \in Idx(cl[i]) |-> (cl[i][k].pnl + 1007) * (2 * k + 1)], Idx(cl[i]))], Instr)
 \* neg: the statistics of the losing returns so far (PnLReturns.losses); persist: the harness stores and
 \* restores the running summary after this update (action Persist - a stutter, no expectation changes)
 Rec17(pf) == [x |-> last'.x, persist |-> pf, exp |-> DataSetJ(DataSet(vals')), neg |-> DataSetJ(DataSet(NegOf(vals')))]
 
 \* ---- C16
 G16Step == /\ ~done /\ NClosed < MaxClosed
-           /\ \E i \in Instr, p \in PnLs, c \in Costs : AddClosed(i, p, c)
-           /\ hist' = Append(hist, Rec16)
+           /\ \E i \in Instr, p \in PnLs, c \in Costs :
+                 /\ AddClosedH(i, p, c, LastT(closed[i]) + GapSeq[((HashOf(closed) + 2 * p + 1000 + Len(closed[i])) % Len(GapSeq)) + 1])
+                 /\ UNCHANGED acc
+           /\ LET H == HashOf(closed')
+              IN hist' = Append(hist, Rec16(~OneInstr(closed'), RFSeq[(H % 4) + 1], IvSeq[((H \div 4) % 5) + 1],
+                                             IvSeq[(((H \div 4) + 1 + (H % 3)) % 5) + 1]))
            /\ UNCHANGED done
 \* (draws are bound through singleton sets: a RandomElement inside a LET / argument position may be
 \*  re-drawn at every reference - notes/HOWTO.md "TLC pitfalls")
+\* (the first step decides whether the behaviour is a wide one)
 G16StepR == /\ ~done /\ Len(hist) < MaxClosed
-            /\ \E r \in {RandomElement(1..11)}, i \in {RandomElement(Instr)}, p \in {RandomElement(PnLs)},
-                  c \in {RandomElement(Costs)}, a \in {RandomElement(Asset)}, b \in {RandomElement(Bals)} :
-                 IF r <= 6 THEN AddClosed(i, p, c)
-                 ELSE IF r <= 8 THEN AddBalance(a, b)
-                 ELSE IF r <= 10 THEN Generate
-                 ELSE Persist
-            /\ hist' = Append(hist, Rec16)
+            /\ \E w \in {IF hist = <<>> THEN RandomElement(BOOLEAN) ELSE hist[1].wide} :
+               \E r \in {RandomElement(1..12)}, i \in {RandomElement(IF w THEN Instr ELSE Instr \cap RatioInstr)},
+                  p \in {RandomElement(IF w THEN PnLs ELSE RatioPnLs)}, c \in {RandomElement(IF w THEN Costs ELSE RatioCosts)},
+                  a \in {RandomElement(Asset)}, b \in {RandomElement(Bals)}, g \in {RandomElement(Gaps)},
+                  rf \in {RandomElement(RFs)}, iv \in {RandomElement(Ivs)}, iw \in {RandomElement(Ivs)} :
+                 /\ IF r <= 6 THEN AddClosedH(i, p, c, LastT(closed[i]) + g) /\ UNCHANGED acc
+                    ELSE IF r <= 8 THEN AddBalance(a, b)
+                    ELSE IF r <= 10 THEN GenerateS(SummaryOf(closed, bal))     \* (what it returns is in the record: Rec16)
+                    ELSE IF r = 11 \/ closed[i] = <<>> THEN Persist
+                    ELSE ResetH(i) /\ UNCHANGED acc
+                 /\ hist' = Append(hist, Rec16(w, rf, iv, iw))
             /\ UNCHANGED done
 G16Finish  == /\ ~done /\ NClosed = MaxClosed /\ done' = TRUE
               /\ UNCHANGED <<closed, acc, bal, out, vals, wf, last, hist>>
